@@ -52,8 +52,18 @@ def hFrameCheck : Handler := handler fun
       ofPairs (framePrios g.length st.stripped core)])
   | _ => none
 
+/-- `(strip_full graph (task-keys...))` ↦ `((stripped...) ((dependent root)...) (alive...))`: the whole state after the
+    normalisation loop (`requires_data_task` as pairs) -/
+def hStripFull : Handler := handler fun
+  | [g, tasks] => do
+    let g ← ioGraph? g
+    let tasks ← tasks.toNats?
+    let st := strip g (fun k => tasks.contains k)
+    pure (.list [SExp.ofNats st.stripped, ofPairs st.dataRoots, SExp.ofNats st.alive])
+  | _ => none
+
 /-- extra handlers of the C06 model: `(op, handler)` pairs appended to the table of `dm_graph` -/
 def ioHandlers : List (String × Handler) :=
-  [("ndeps", hNdeps), ("order_prelude", hOrderPrelude), ("frame_check", hFrameCheck)]
+  [("ndeps", hNdeps), ("order_prelude", hOrderPrelude), ("frame_check", hFrameCheck), ("strip_full", hStripFull)]
 
 end Dask.Order
